@@ -408,7 +408,7 @@ class Server:
         for l in self.pre_banner:
             yield ('send', l + self.line_end, 'pre_banner')
         yield ('send', self.banner + self.line_end, 'banner')
-        if self.ssh1 is not None and self.banner.startswith(b'SSH-1.') and not self.versions_differ:
+        if self.ssh1 is not None and self.banner.startswith(b'SSH-1.') and not self.versions_differ:    # 'always': accepts no version at all
             yield from self.script_ssh1(c)
             return
         kt = None
@@ -419,7 +419,7 @@ class Server:
         rec['client_banner'] = line
         if self.ssh1 is not None:
             # SSH-1.99 server: speak SSH-1 to an SSH-1 client, tell an SSH-2 client off when so configured.
-            if line.startswith(b'SSH-1.'):
+            if line.startswith(b'SSH-1.') and self.versions_differ != 'always':
                 yield from self.script_ssh1(c, banner_done=True)
                 return
             if self.versions_differ:
